@@ -988,8 +988,12 @@ func resolveActiveValidators(ctx context.Context, eth2Cl eth2wrap.Client, submit
 		submitter(pubkey, val.Balance, val.Status.String())
 
 		// Check for active validators for the given epoch.
-		// The activation epoch needs to be checked in cases where this function is called before the epoch starts.
-		if !val.Status.IsActive() && val.Validator.ActivationEpoch != eth2p0.Epoch(epoch) {
+		// The activation epoch needs to be checked in cases where this function is called before the epoch starts,
+		// or with validator data of an earlier epoch (the validator cache is only refreshed on the first slot of an epoch,
+		// so it lags behind if that slot tick is missed): a pending validator that activates at or before the epoch is active in it.
+		activates := val.Status.IsPending() &&
+			val.Validator.ActivationEpoch <= eth2p0.Epoch(epoch) && eth2p0.Epoch(epoch) < val.Validator.ExitEpoch
+		if !val.Status.IsActive() && val.Validator.ActivationEpoch != eth2p0.Epoch(epoch) && !activates {
 			continue
 		}
 
